@@ -548,9 +548,11 @@ class HContainerTransfer(Handler):
 
     def post(self, ctx, args, kwargs, result, exc):
         pp = PP()
-        if len(args) != 3:
+        a = dict(zip(('source', 'destination', 'quantity'), args))
+        a.update(kwargs)
+        if set(a) != {'source', 'destination', 'quantity'}:
             return
-        src, dst, quantity = args
+        src, dst, quantity = a['source'], a['destination'], a['quantity']
         if not isinstance(dst, pp.Container) or not isinstance(quantity, str):
             return
         nested = M.depth > 1
@@ -567,9 +569,11 @@ class HContainerTransfer(Handler):
 class HPlateTransfer(Handler):
     def post(self, ctx, args, kwargs, result, exc):
         pp = PP()
-        if len(args) != 3:
+        a = dict(zip(('source', 'destination', 'quantity'), args))
+        a.update(kwargs)
+        if set(a) != {'source', 'destination', 'quantity'}:
             return
-        src, dst, quantity = args
+        src, dst, quantity = a['source'], a['destination'], a['quantity']
         if not isinstance(dst, (pp.Plate, pp.PlateSlicer)) or not isinstance(quantity, str):
             return
         check_plate_transfer(src, dst, quantity, result, exc, 'Plate.transfer')
